@@ -151,7 +151,7 @@ def run(F, R, tier, cfg):
         if e.get("trait_item") in ("sciparse::core::convert::FromView::from_view", "sciparse::core::convert::TryFromView::try_from_view") \
                 and not T.is_test_support(p) and p.startswith("sciparse::proto::dataplane_path"):
             entries.append(p)
-    PN.check_entries(F, R, "C12", sorted(set(entries)), cfg)
+    PN.check_entries(F, R, "C12", sorted(set(entries)), cfg, underflow_armed=r"view::StandardPathView::try_reverse$")
     lane_contract(F, R)
 
 
